@@ -104,6 +104,8 @@ type haRun struct {
 	frozen    []bool
 	thawAt    []time.Duration
 	lateNodes map[int]bool // S4: nodes from which payloads are withheld
+	crown     map[int]bool // when set, only these nodes receive anything (one-way starvation of the others)
+	crownTill time.Duration
 	lastPos   string
 	certSeen  map[basics.Round]bool
 	tail      bool
@@ -340,8 +342,8 @@ func (run *haRun) execute() {
 				run.tailDone = true
 				return
 			}
-			if cl.Now() > tailCap {
-				return // no progress within the virtual-time cap: reported by the runner (C05) / vacuity elsewhere
+			if cl.Now() > tailCap || run.maxNext() > targetTail+12 {
+				return // no progress (or one node left behind while the others run on) within the virtual-time cap: reported by the runner (C05) / vacuity elsewhere
 			}
 		}
 		if !run.advance() {
@@ -392,6 +394,12 @@ func (run *haRun) route(w *haWire, dst int) {
 	p := &haPending{at: cl.Now(), dst: dst, src: w.src, tag: w.tag, data: w.data}
 	if run.tail {
 		run.push(p)
+		return
+	}
+	// crown: only the crowned nodes receive
+	if run.crown != nil && !run.crown[dst] {
+		run.drops++
+		cl.sched("CDROP %d->%d %s", w.src, dst, w.tag)
 		return
 	}
 	// partitions
@@ -462,6 +470,13 @@ func (run *haRun) trigger(why string) {
 		run.flipPos[s] = true
 	}
 	n := cs.Nodes
+	if why == "first-cert-vote" && run.r.Chance(1, 2) {
+		// only one node gets to see the cert votes (it may commit alone; the others must carry the value)
+		run.crown = map[int]bool{run.r.Intn(n): true}
+		run.crownTill = run.cl.Now() + time.Duration(5+run.r.Intn(40))*time.Second
+		run.cl.sched("CROWN nodes=%v until=%v", keysOf(run.crown), run.crownTill)
+		return
+	}
 	switch run.r.Intn(4) {
 	case 0: // heal
 		for i := range run.group {
@@ -550,6 +565,10 @@ func (run *haRun) prefixTick() {
 		}
 		run.held = keep
 	}
+	if run.crown != nil && cl.Now() >= run.crownTill {
+		run.crown = nil
+		cl.sched("UNCROWN")
+	}
 	// thaw starved nodes
 	for i := range run.frozen {
 		if run.frozen[i] && cl.Now() >= run.thawAt[i] {
@@ -624,7 +643,7 @@ func (run *haRun) downCount() int {
 func (run *haRun) handleDown() {
 	cl, cs := run.cl, run.cs
 	for _, n := range cl.nodes {
-		if n.live() != nil {
+		if n.live() != nil || n.crashing.Load() != 0 {
 			continue
 		}
 		n.incMu.Lock()
@@ -669,6 +688,7 @@ func (run *haRun) handleDown() {
 func (run *haRun) synchronise() {
 	cl, cs := run.cl, run.cs
 	cl.disarmAll()
+	cl.waitQuiet() // a crash procedure that is still running completes first
 	run.tail = true
 	for i := range run.group {
 		run.group[i] = 0
@@ -677,6 +697,7 @@ func (run *haRun) synchronise() {
 		run.frozen[i] = false
 	}
 	run.lateNodes = map[int]bool{}
+	run.crown = nil
 	cl.sched("SYNC-POINT")
 	// restart whatever is down
 	for _, n := range cl.nodes {
@@ -769,7 +790,7 @@ func (run *haRun) deliverBatch() int {
 			}
 			continue
 		}
-		if cl.deliver(p.dst, p.src, p.tag, p.data, p.dup) {
+		if cl.deliver(p.dst, p.src, p.tag, p.data, p.dup, !run.tail) {
 			taken[p.dst] = true
 			run.deliveries++
 			k++
@@ -840,10 +861,8 @@ func (run *haRun) advance() bool {
 	if fired > 0 {
 		return cl.waitQuiet()
 	}
-	if run.adv != nil && !run.tail {
-		if t, ok := run.adv.nextWake(); ok {
-			consider(t)
-		}
+	if run.crown != nil && !run.tail {
+		consider(run.crownTill)
 	}
 	if next < 0 {
 		// nothing armed anywhere: the cluster is stuck (every node down or frozen without a wake-up)
